@@ -73,7 +73,7 @@ func ruleNAMES1(c *Ctx) {
 			}
 			return false, ""
 		}
-		fl := &Flow[st]{Fn: f}
+		fl := &Flow[st]{Fn: f, Inline: p.InlineHelpers(f)}
 		visit := func(n ast.Node, s st) st {
 			for _, call := range CallsIn(n) {
 				if _, ok := MethodCall(info, call, "jsontext", "objectNameStack", "copyQuotedBuffer"); ok && len(call.Args) == 1 && isFieldSel(info, call.Args[0], buf) {
@@ -143,7 +143,7 @@ func ruleNAMES1(c *Ctx) {
 		}
 		type st struct{ copied bool }
 		bad := ""
-		fl := &Flow[st]{Fn: f}
+		fl := &Flow[st]{Fn: f, Inline: p.InlineHelpers(f)}
 		visit := func(n ast.Node, s st) st {
 			for _, call := range CallsIn(n) {
 				if _, ok := MethodCall(info, call, "jsontext", "objectNameStack", "copyQuotedBuffer"); ok {
@@ -219,7 +219,7 @@ func ruleBUF1(c *Ctx) {
 			})
 			return r
 		}
-		fl := &Flow[st]{Fn: f}
+		fl := &Flow[st]{Fn: f, Inline: p.InlineHelpers(f)}
 		fl.Node = func(n ast.Node, s st) []st {
 			if isRebase(n) {
 				nRebase++
@@ -289,12 +289,31 @@ func ruleBUF1(c *Ctx) {
 			npos         tri  // n > 0
 			buf          int8 // 0 untouched, 1 emptied (or re-aliased to the writer's spare buffer), 2 shifted by n
 			infallible   bool // last write was bytes.Buffer.Write (error ignored by design)
+			ret          tri  // nil-ness of the error last returned by a walked helper
 		}
 		var nVar, errVar types.Object
+		errVars := map[types.Object]bool{} // error variables that carry the outcome of the last Write (also through helper results)
 		bad := ""
 		var badPos token.Pos
 		nWrites := 0
-		fl := &Flow[st]{Fn: f}
+		fl := &Flow[st]{Fn: f, Inline: p.InlineHelpers(f, "avoidFlush")}
+		fl.CalleeReturn = func(callee *FuncInfo, ret *ast.ReturnStmt, s st) st {
+			s.ret = triUnknown
+			if len(ret.Results) > 0 {
+				last := ast.Unparen(ret.Results[len(ret.Results)-1])
+				switch {
+				case IsNilIdent(info, last):
+					s.ret = triYes
+				case errVars[IdentObj(info, last)]:
+					s.ret = s.err
+				default:
+					if _, isId := last.(*ast.Ident); !isId {
+						s.ret = triNo // a constructed error value
+					}
+				}
+			}
+			return s
+		}
 		fail := func(pos token.Pos, msg string) {
 			if bad == "" {
 				bad, badPos = msg, pos
@@ -321,7 +340,16 @@ func ruleBUF1(c *Ctx) {
 									s.err = triYes
 								} else {
 									errVar = IdentObj(info, as.Lhs[1])
+									errVars[errVar] = true
 								}
+							}
+							return []st{s}
+						}
+						// err := e.helper() with the helper walked: its returned error is this variable
+						if fl.Inline(call) != nil && len(as.Lhs) > 0 {
+							if ev := IdentObj(info, as.Lhs[len(as.Lhs)-1]); ev != nil && isErrorType(ev.Type()) {
+								errVars[ev] = true
+								s.err = s.ret
 							}
 							return []st{s}
 						}
@@ -368,13 +396,22 @@ func ruleBUF1(c *Ctx) {
 			return []st{s}
 		}
 		fl.Leaf = func(e ast.Expr, s st) (t, fs []st) {
-			if v, nonNil, ok := ErrCmp(info, e); ok && errVar != nil && v == errVar {
-				st1, st2 := s, s
-				st1.err, st2.err = triNo, triYes
-				if nonNil {
-					return []st{st1}, []st{st2}
+			if v, nonNil, ok := ErrCmp(info, e); ok && errVars[v] {
+				var nn, nl []st // non-nil branch, nil branch
+				if s.err != triYes {
+					s1 := s
+					s1.err = triNo
+					nn = []st{s1}
 				}
-				return []st{st2}, []st{st1}
+				if s.err != triNo {
+					s2 := s
+					s2.err = triYes
+					nl = []st{s2}
+				}
+				if nonNil {
+					return nn, nl
+				}
+				return nl, nn
 			}
 			if be, ok := e.(*ast.BinaryExpr); ok && nVar != nil {
 				x, y, op := be.X, be.Y, be.Op
